@@ -54,6 +54,7 @@ class AXILMaster:
         self.aw_off = self.w_off = 0          # number of AW / W ever offered
         self.log = {"aw": [], "w": [], "b": [], "ar": [], "r": []}
         self.offered = {"aw": [], "w": [], "ar": []}      # first cycle in which each token was visible
+        self.aw_lead = 0
         self.b_ready = self.r_ready = 0
 
     def signals(self):
@@ -86,6 +87,7 @@ class AXILMaster:
         # --- new offers
         g = rng if self.garbage else None
         nw = len(self.writes)
+        self.aw_lead -= 1
         if self.aw.offering is None:
             i = self.aw_off
             can = i < nw and (i - self.b_i) < self.max_out
@@ -94,13 +96,14 @@ class AXILMaster:
             if can and (coop or rng.random() < self.p_aw):
                 self.aw.offer(w, (self.writes[i]["addr"], self.writes[i].get("prot", self.prot)))
                 self.aw_off += 1
+                self.aw_lead = rng.randint(1, 6) if self.order == "aw_first" else 0
             else:
                 self.aw.idle(w, g)
         if self.w.offering is None:
             i = self.w_off
             can = i < nw and (i - self.b_i) < self.max_out
             if can and self.order == "aw_first":
-                can = self.aw_i > i                       # AW[i] already accepted
+                can = self.aw_off > i and self.aw_lead <= 0   # AW[i] offered some cycles earlier (never waits for AWREADY)
             if can and self.order == "together":
                 can = self.aw_off > i                     # offered in the same cycle as (or after) AW[i]
             if can and (coop or self.order == "together" or rng.random() < self.p_w):
